@@ -10,11 +10,13 @@ import (
 	"errors"
 	"io"
 	"net"
+	"strings"
 	"time"
 
 	"go.sia.tech/core/gateway"
 	"go.sia.tech/core/types"
 	"go.sia.tech/mux"
+	"verif/harness/internal/chaingen"
 )
 
 func v1Write(w io.Writer, fn func(*types.Encoder)) error {
@@ -133,10 +135,88 @@ func le64(v uint64) []byte {
 	return b
 }
 
-var malformedKinds = []string{"unknown-id", "truncated-id", "truncated-request", "oversize-outline", "oversize-txns", "garbage-header", "flood", "garbage-answers"}
+var malformedKinds = []string{"unknown-id", "truncated-id", "truncated-request", "oversize-outline", "oversize-txns", "garbage-header", "flood", "garbage-answers",
+	// well-formed requests with illegal or extreme arguments (the victim as server)
+	"req-headers-max-huge", "req-headers-off-chain", "req-headers-height-mismatch", "req-blocks-max-huge", "req-blocks-empty-history",
+	"req-blocks-unknown-history", "req-checkpoint-genesis", "req-checkpoint-unknown", "req-txns-of-stored-block", "req-txns-unknown-many"}
+
+func encIndex(h uint64, id types.BlockID) []byte { return append(le64(h), id[:]...) }
+
+// request sends a well-formed request and reads (and discards) up to 1 MiB of the answer.
+func (r *rawPeer) request(b []byte) int {
+	s := r.m.DialStream()
+	defer s.Close()
+	s.SetDeadline(time.Now().Add(3 * time.Second))
+	s.Write(b)
+	n, _ := io.Copy(io.Discard, io.LimitReader(s, 1<<20))
+	return int(n)
+}
+
+// extreme sends a well-formed request with illegal or extreme arguments.
+func (r *rawPeer) extreme(kind string, t *chaingen.Tree, v0 *chaingen.Node) {
+	g := t.Nodes[0]
+	var junk types.BlockID
+	junk[0], junk[9] = 0xEE, 0x77
+	switch kind {
+	case "req-headers-max-huge":
+		r.request(append(append(spec("SendHeaders"), encIndex(0, g.ID)...), le64(^uint64(0))...))
+		r.request(append(append(spec("SendHeaders"), encIndex(0, g.ID)...), le64(0)...))
+	case "req-headers-off-chain":
+		r.request(append(append(spec("SendHeaders"), encIndex(3, junk)...), le64(10)...))
+	case "req-headers-height-mismatch":
+		r.request(append(append(spec("SendHeaders"), encIndex(v0.Height+7, g.ID)...), le64(10)...))
+		r.request(append(append(spec("SendHeaders"), encIndex(^uint64(0), v0.ID)...), le64(10)...))
+	case "req-blocks-max-huge":
+		r.request(append(append(append(spec("SendV2Blocks"), le64(1)...), g.ID[:]...), le64(^uint64(0))...))
+		r.request(append(append(append(spec("SendV2Blocks"), le64(1)...), g.ID[:]...), le64(0)...))
+	case "req-blocks-empty-history":
+		r.request(append(append(spec("SendV2Blocks"), le64(0)...), le64(5)...))
+	case "req-blocks-unknown-history":
+		b := append(spec("SendV2Blocks"), le64(32)...)
+		for i := 0; i < 32; i++ {
+			id := junk
+			id[3] = byte(i)
+			b = append(b, id[:]...)
+		}
+		r.request(append(b, le64(100)...))
+	case "req-checkpoint-genesis":
+		r.request(append(spec("SendCheckpoint"), encIndex(0, g.ID)...))
+	case "req-checkpoint-unknown":
+		r.request(append(spec("SendCheckpoint"), encIndex(5, junk)...))
+	case "req-txns-of-stored-block":
+		// every block of the victim's chain in turn, v1 and v2: all its transactions, plus an unknown hash
+		for x := v0; x != nil && x.Parent != nil; x = x.Parent {
+			var hs []types.Hash256
+			for _, txn := range x.Block.Transactions {
+				hs = append(hs, txn.MerkleLeafHash())
+			}
+			for _, txn := range x.Block.V2Transactions() {
+				hs = append(hs, txn.MerkleLeafHash())
+			}
+			hs = append(hs, types.Hash256(junk))
+			b := append(append(spec("SendTransactions"), encIndex(x.Height, x.ID)...), le64(uint64(len(hs)))...)
+			for _, h := range hs {
+				b = append(b, h[:]...)
+			}
+			r.request(b)
+		}
+	case "req-txns-unknown-many":
+		b := append(append(spec("SendTransactions"), encIndex(9, junk)...), le64(100)...)
+		for i := 0; i < 100; i++ {
+			h := junk
+			h[5] = byte(i)
+			b = append(b, h[:]...)
+		}
+		r.request(b)
+	}
+}
 
 // malform sends one kind of malformed traffic.
-func (r *rawPeer) malform(kind string) {
+func (r *rawPeer) malform(kind string, t *chaingen.Tree, v0 *chaingen.Node) {
+	if strings.HasPrefix(kind, "req-") {
+		r.extreme(kind, t, v0)
+		return
+	}
 	switch kind {
 	case "unknown-id":
 		r.send(spec("Nonsense"), 200*time.Millisecond)
